@@ -14,6 +14,7 @@ Variable fn2 : nat -> K -> K -> K.
 Notation ev := (@ev K kadd kmul kdiv kneg kone fn1 fn2).
 Notation run_seg := (@run_seg K kadd kmul kdiv kneg kone fn1 fn2).
 Notation run_segs := (@run_segs K kadd kmul kdiv kneg kone fn1 fn2).
+Notation run_segs_old := (@run_segs_old K kadd kmul kdiv kneg kone fn1 fn2).
 
 (* substituting numbers for (some or all) free / measured atoms commutes with evaluation *)
 Theorem C10_subst_eval : forall rho sf sm (e : expr K),
@@ -56,24 +57,28 @@ Theorem C10_use_before_measure : forall free h1 e h2 (s : store K) k,
   nth_error (snd (run_seg free s (h1 ++ EUse e :: h2))) (length (snd (run_seg free s h1))) = Some ParamErr.
 Proof. exact (use_before_measure kadd kmul kdiv kneg kone fn1 fn2). Qed.
 
-(* several program segments on one engine: if the whole store is handed to the next segment, running them
-   one after the other is running their concatenation (so C10_latest etc. hold across segments) *)
-Theorem C10_segments_ideal : forall free segs (s : store K),
-  run_segs (@fwd_ideal K) free s segs = run_seg free s (concat segs).
-Proof. exact (segs_ideal kadd kmul kdiv kneg kone fn1 fn2). Qed.
+(* several program segments on one engine (BaseEngine._run as it is now: the engine's table of latest
+   outcomes per mode is written into the next segment's RegRefs, whether that Program object was built
+   before ("eager") or from its predecessor after it ran ("lazy")): running the segments one after the other
+   evaluates every use to exactly what the concatenated program evaluates it to, and leaves the same store;
+   hence C10_latest / C10_use_sees_latest / C10_use_before_measure hold across segments and resets *)
+Theorem C10_segments : forall (lazy : bool) free (segs : list (list (event K))),
+  snd (run_segs lazy free (@empty K) [] segs) = snd (run_seg free (@empty K) (concat segs)) /\
+  (forall k, fst (run_segs lazy free (@empty K) [] segs) k = fst (run_seg free (@empty K) (concat segs)) k).
+Proof. exact (segs_concat kadd kmul kdiv kneg kone fn1 fn2). Qed.
 
-(* REFUTED for the hand-over as written in BaseEngine._run (`for k, v in enumerate(self.samples)`):
-   a value measured on mode 1 is lost (ParameterError where the concatenated program evaluates to x) ... *)
-Theorem C10_segments_as_written_refuted : forall free (x : K),
-  run_segs (@fwd_written K) free (@empty K) [[EMeas [1] [[x]]]; [EUse (Meas 1)]] = (upd (@empty K) 0 [x], [ParamErr])
+(* REFUTED for the hand-over as it was before fix 711526c (`for k, v in enumerate(self.samples)`,
+   definitions run_segs_old / fwd_written_old): a value measured on mode 1 was lost ... *)
+Theorem C10_segments_old_refuted : forall free (x : K),
+  run_segs_old free (@empty K) [[EMeas [1] [[x]]]; [EUse (Meas 1)]] = (upd (@empty K) 0 [x], [ParamErr])
   /\ snd (run_seg free (@empty K) (concat [[EMeas [1] [[x]]]; [EUse (Meas 1)]])) = [Ok (S x)].
-Proof. exact (segs_written_loses kadd kmul kdiv kneg kone fn1 fn2). Qed.
+Proof. exact (segs_old_loses kadd kmul kdiv kneg kone fn1 fn2). Qed.
 
-(* ... and mode 0's parameter silently evaluates to mode 1's outcome where ParameterError is due *)
-Theorem C10_segments_as_written_wrong_mode_refuted : forall free (x : K),
-  snd (run_segs (@fwd_written K) free (@empty K) [[EMeas [1] [[x]]]; [EUse (Meas 0)]]) = [Ok (S x)]
+(* ... and mode 0's parameter silently evaluated to mode 1's outcome where ParameterError is due *)
+Theorem C10_segments_old_wrong_mode_refuted : forall free (x : K),
+  snd (run_segs_old free (@empty K) [[EMeas [1] [[x]]]; [EUse (Meas 0)]]) = [Ok (S x)]
   /\ snd (run_seg free (@empty K) (concat [[EMeas [1] [[x]]]; [EUse (Meas 0)]])) = [ParamErr].
-Proof. exact (segs_written_wrong_mode kadd kmul kdiv kneg kone fn1 fn2). Qed.
+Proof. exact (segs_old_wrong_mode kadd kmul kdiv kneg kone fn1 fn2). Qed.
 
 (* Program.bind_params raises for an unknown name and only then ... *)
 Theorem C10_bind_unknown_raises : forall b (fs : fstore K),
@@ -106,9 +111,9 @@ Print Assumptions C10_eval_depends_only_on_deps.
 Print Assumptions C10_latest.
 Print Assumptions C10_use_sees_latest.
 Print Assumptions C10_use_before_measure.
-Print Assumptions C10_segments_ideal.
-Print Assumptions C10_segments_as_written_refuted.
-Print Assumptions C10_segments_as_written_wrong_mode_refuted.
+Print Assumptions C10_segments.
+Print Assumptions C10_segments_old_refuted.
+Print Assumptions C10_segments_old_wrong_mode_refuted.
 Print Assumptions C10_bind_unknown_raises.
 Print Assumptions C10_bind_value.
 Print Assumptions C10_bind_frame.
@@ -128,6 +133,12 @@ Example C10_ex_remeasure :
   snd (run_seg Nat.add Nat.mul Nat.div (fun x => x) 1 (fun _ x => x) (fun _ x _ => x) (fun _ => None) (@empty nat)
          [EMeas [0] [[5]]; EUse (Meas 0); EPrep 0; EMeas [0] [[9]]; EUse (Add (Meas 0) (Const (S 1)))])
   = [Ok (S 5); Ok (S 10)].
+Proof. reflexivity. Qed.
+
+Example C10_ex_segments :
+  snd (run_segs Nat.add Nat.mul Nat.div (fun x => x) 1 (fun _ x => x) (fun _ x _ => x) false (fun _ => None) (@empty nat) []
+         [[EMeas [1] [[5]]]; [EPrep 0]; [EUse (Meas 1); EReset; EUse (Meas 1)]])
+  = [Ok (S 5); ParamErr].
 Proof. reflexivity. Qed.
 
 Example C10_ex_decomp_hypothesis :
